@@ -5,6 +5,7 @@ import (
 	"context"
 	"errors"
 	"fmt"
+	"io"
 	"net"
 	"time"
 
@@ -144,6 +145,23 @@ func runCloseCase(cc closeCase) (string, string) {
 		// closed for good
 		if sh, w := closedForGood(c); sh != "" {
 			return sh, w
+		}
+	case "peer-hangup":
+		// the peer sends a valid Close frame and goes away at once: the echo cannot be delivered,
+		// the received Close must still be reported with its code and reason
+		payload := want
+		if cc.Code == 1005 {
+			payload = nil
+		}
+		peer.writeFrame(RawFrame{Fin: true, Op: 8, Payload: payload})
+		pend.w.CloseWith(nil)          // nothing more from the peer
+		pend.r.CloseWith(io.ErrClosedPipe) // and writes to it fail
+		ctx, cancel := context.WithTimeout(context.Background(), 8*time.Second)
+		defer cancel()
+		_, _, err := c.Read(ctx)
+		var ce websocket.CloseError
+		if !errors.As(err, &ce) || int(ce.Code) != cc.Code || ce.Reason != string(reason) {
+			return "peer-close-not-reported", fmt.Sprintf("peer sent Close(%d, %q) and hung up: Read returned %v", cc.Code, trunc(string(reason), 20), err)
 		}
 	case "order":
 		// peer echoes closes
@@ -355,6 +373,7 @@ func runC06(ctx *runCtx) {
 				cases = append(cases, closeCase{Kind: "local", Client: client, Code: code, Reason: hx(randBytes(rng, rl))})
 				if (rfcSendable(code) && rl <= 123) || (code == 1005 && rl == 0) {
 					cases = append(cases, closeCase{Kind: "peer", Client: client, Code: code, Reason: hx(randBytes(rng, rl))})
+					cases = append(cases, closeCase{Kind: "peer-hangup", Client: client, Code: code, Reason: hx(randBytes(rng, rl))})
 				}
 			}
 		}
